@@ -154,6 +154,8 @@ def f32_ulp(x):
 # Tensor alphabet T(shape, pattern) of DESIGN 2.3: a fixed finite list of value patterns; the seed
 # only selects one of 8 fixed permutations of the values over positions.
 PATTERNS = ["grid7", "ramp", "signs", "zero_channel", "zeros", "huge", "tiny", "one_hot_max"]
+# "bell" (not in PATTERNS: requested explicitly): normal quantiles x 0.3, always permuted - a weight distribution on which a
+# low-bit data-dependent power-of-two scale is NOT idempotent (re-quantizing the quantized tensor picks another scale)
 _SIGN_VALUES = None
 
 
@@ -186,10 +188,16 @@ def tensor(shape, pattern, seed=0):
     v = ((((i * 7 + 3) % 15) - 7) / 7.0) * 1e-6
   elif pattern == "one_hot_max":
     v = ((((i * 3 + 1) % 11) - 5) / 50.0)
+  elif pattern == "bell":
+    from scipy.stats import norm  # pylint: disable=import-outside-toplevel
+    v = norm.ppf((i + 0.5) / n) * 0.3
   else:
     raise ValueError(pattern)
   v = np.asarray(v, dtype=F32)
-  perm = np.random.RandomState(1000 + (seed % 8)).permutation(n) if seed % 8 else np.arange(n)
+  if pattern == "bell":
+    perm = np.random.RandomState(1001 + (seed % 8)).permutation(n)     # always permuted
+  else:
+    perm = np.random.RandomState(1000 + (seed % 8)).permutation(n) if seed % 8 else np.arange(n)
   v = v[perm].reshape(shape)
   if pattern == "zeros":
     v = np.zeros(shape, dtype=F32)
